@@ -3,17 +3,17 @@ import itertools
 from vlib import Case, hx
 
 HARNESS = "rx_driver"
-LEAN_MODULES = ["ViaProofs.C16", "ViaProofs.Trans.RT"]
-REQUIRED_THEOREMS = ["Via.C16", "Via.C16_no_throw", "Via.RT_handleRequest", "Via.RT_guard", "Via.RT_searchPath", "Via.RT_hasParameters"]
+LEAN_MODULES = ["ViaProofs.C16", "ViaProofs.Trans.RT", "ViaProofs.Trans.URI"]
+REQUIRED_THEOREMS = ["Via.C16", "Via.C16_no_throw", "Via.RT_handleRequest", "Via.RT_guard", "Via.RT_searchPath", "Via.RT_hasParameters", "Via.URI_parse"]
 LEVEL = "proof"
-LEVEL_TEXT = ("PROOF that the router's dispatch equals a 10-line specification matcher for every route table, target and method (refinement), and never throws; the decision chain of handle_request (404 / 405 + Allow / 401 + challenge / handler with the bound parameters), the Route constructor's search_path and has_parameters as translated from the current source (tools/cxx2lean_router.py -> ViaGen/RT) are proved equal to the model (Trans/RT); find_route, get_route_parameters, request_uri and add_method are hand-modelled; correspondence exhaustive over small tables plus random larger ones, duplicate registrations, multi-'?' targets.")
+LEVEL_TEXT = ("PROOF that the router's dispatch equals a 10-line specification matcher for every route table, target and method (refinement), and never throws; the decision chain of handle_request (404 / 405 + Allow / 401 + challenge / handler with the bound parameters), the Route constructor's search_path and has_parameters as translated from the current source (tools/cxx2lean_router.py -> ViaGen/RT) are proved equal to the model (Trans/RT); the request_uri constructor (size_t wrap-around and npos arithmetic as written) is translated too (tools/cxx2lean_uri.py -> ViaGen/URI) and proved equal to the model and exception-free for every string shorter than npos (Trans/URI); find_route, get_route_parameters and add_method are hand-modelled; correspondence exhaustive over small tables plus random larger ones, duplicate registrations, multi-'?' targets.")
 RULE = ("route tables over segment alphabet {a,b,:x,:y} (patterns of 1..3 segments, distinct parameter names) with GET/POST "
         "handlers, against every target of 1..4 segments over {a,b,c,empty} with optional query/fragment; every "
         "single-route table exhaustively, two-route tables sampled (exhaustive in thorough), plus random larger tables; "
         "expected outcome from an independent segment-wise matcher; non-trivial = the pattern has a parameter or the "
         "table has 2 routes; distinct = distinct (table, target, method)")
 TRUSTED_BASE = ["Lean 4.33 kernel", "axioms: propext, Classical.choice, Quot.sound at most",
-                "tools/cxx2lean_router.py (translation of the decision chain of request_router::handle_request; the model is proved equal to it in ViaProofs/Trans/RT; find_route / request_uri / get_route_parameters are hand-modelled and tied by correspondence only)",
+                "tools/cxx2lean_router.py (translation of the decision chain of request_router::handle_request; the model is proved equal to it in ViaProofs/Trans/RT; find_route / get_route_parameters are hand-modelled and tied by correspondence only)", "tools/cxx2lean_uri.py (translation of request_uri::request_uri; Trans/URI",
                 "rx_driver harness + via_model driver", "std::string / std::map modelled as lists / sorted association lists"]
 ASSUMPTIONS = ["route patterns start with '/', ':' occurs only as the first character of a segment, parameter names in one "
                "pattern are distinct and non-empty patterns (the documented usage)",
